@@ -72,6 +72,7 @@ type Check struct {
 	Race        bool // run native replays under the race detector
 	RecordStubs []string // functions the VM replaces by recording stubs
 	SelfTest    bool     // validate the string-level models against the native functions first
+	Z3TimeoutMs int      // per-query limit of the primary solver before the fallback is tried (0 = 8000)
 	Timeout     map[string]time.Duration
 }
 
@@ -478,7 +479,11 @@ func Run(id, tier string, seed int, workers int) int {
 		go func() {
 			defer wg.Done()
 			m := vm.New(ld.Prog, ld.Pkgs, vm.RepoModule)
-			s, err := smt.NewSolver("z3", 8000)
+			zt := chk.Z3TimeoutMs
+			if zt == 0 {
+				zt = 8000
+			}
+			s, err := smt.NewSolver("z3", zt)
 			if err != nil {
 				panic(err)
 			}
